@@ -336,6 +336,41 @@ func VxDecision() {
 	}
 }
 
+// Tie-break rules 3-5 need literal segments of different lengths; those make symbolic request paths long, so this
+// entry uses a richer pattern pool with a list of concrete request paths (pairs of patterns, both policy orders).
+var vxPool2 = []string{
+	"+/+/ab", "+/b/+", "+/+/a", "ab/+/+", "a/+/+", "+/b/ab", "a/+/ab", "+/+/+", "a/b/+", "+/b/a", "+/bb/+", "+/+/abc",
+	"+/+/ab*", "+/b/+/*", "+/b/a*", "+/+/a*", "a/+/a*", "a/+/ab*", "+/b/*", "+/+/*", "a/b/a*", "a/b/*", "a/*", "a*", "*",
+	"a/b/ab", "a/b/ab/", "+/b/ab/", "+/+/ab/", "a/b/+/",
+}
+
+var vxPaths2 = []string{"a/b/ab", "a/b/a", "ab/b/ab", "a/bb/ab", "a/b/abc", "a/b/ab/", "a/b/ab/c", "ab/b/a/c", "a/b", "a/b/"}
+
+func VxDecisionLongSegments() {
+	i := vxChoose("p0", len(vxPool2))
+	j := i + vxChoose("p1", len(vxPool2)-i)
+	rules := []vxRule{{vxPool2[i], ReadCapabilityInt | ListCapabilityInt}, {vxPool2[j], UpdateCapabilityInt | ScanCapabilityInt | SudoCapabilityInt}}
+	if i == j {
+		rules[1].caps = DenyCapabilityInt
+	}
+	ctx := namespace.RootContext(context.Background())
+	for _, order := range [][]int{{0, 1}, {1, 0}} {
+		acl := vxBuild(ctx, rules, order)
+		for _, path := range vxPaths2 {
+			for _, op := range []logical.Operation{logical.ReadOperation, logical.UpdateOperation, logical.ListOperation, logical.ScanOperation} {
+				listLike := op == logical.ListOperation || op == logical.ScanOperation
+				want, matched := vxRefDecide(rules, path, listLike)
+				res := acl.AllowOperation(ctx, &logical.Request{Path: path, Operation: op}, false)
+				if matched {
+					vxReach("long segments: decided")
+				}
+				vxAssert("long segments: Allowed equals the documented decision", res.Allowed == (matched && want&DenyCapabilityInt == 0 && want&vxOpBit(op) != 0))
+				vxAssert("long segments: sudo from the deciding pattern", res.RootPrivs == (matched && want&SudoCapabilityInt != 0))
+			}
+		}
+	}
+}
+
 // Same pattern named by two or three policies, ALL capability bitmaps symbolic: union of capabilities, deny from any
 // policy wins, for every operation, in every policy order.
 func VxMerge() {
